@@ -35,8 +35,8 @@ def universes(tier, seed):
     else:
         out.append((f"U3c[idx={seed % 127} mod 127]", [("idx", 3, i) for i in U.U3c_shard(seed, 127)]))
         out.append(("F3", [("idx", 3, i) for i in U.F3_indices(False)]))
-        out.append(("MAA3", [("idx", 3, i) for i in U.catalogue("maa")]))
-        out.append(("NFVS3[/8]", [("idx", 3, i) for i in U.shard(U.catalogue("nfvs"), seed, 8)]))
+        out.append((f"MAA3[{seed % 2}/2]", [("idx", 3, i) for i in U.shard(U.catalogue("maa"), seed, 2)]))
+        out.append((f"NFVS3[{seed % 16}/16]", [("idx", 3, i) for i in U.shard(U.catalogue("nfvs"), seed, 16)]))
         out.append(("P4", [("p4", a, b) for a, b in U.P4_pairs(False)]))
         out.append(("I3", [("i3", i) for i in range(len(U.I3_nets()))]))
         ks3 = sorted(U.kernel_small(3))
